@@ -319,7 +319,7 @@ func c06R2(p *Prog, r *Report, id string) {
 		}
 		info := fi.Pkg.TypesInfo
 		var rng *ast.RangeStmt
-		ast.Inspect(fi.Decl, func(n ast.Node) bool {
+		p.inspectRegion(k, func(_ *FuncInfo, n ast.Node) bool {
 			if rs, ok := n.(*ast.RangeStmt); ok && rng == nil && isFieldSel(info, rs.X, modPath+"/method", "Parameters", "RawArgs") {
 				rng = rs
 			}
@@ -381,7 +381,16 @@ func c06R3(p *Prog, r *Report) {
 	fi, sf := needFunc(p, r, "generator.(*generator).CallMethod")
 	if fi != nil {
 		n := 0
-		for _, c := range callsIn(sf, false, isObj(modPath+"/generator", "generator", "requireContext")) {
+		// the argument loop may live in a private helper of CallMethod: look in the whole region (the error
+		// discipline rule makes sure the helper's error stops CallMethod as well)
+		var rcalls []ssa.CallInstruction
+		for _, rf := range p.Region("generator.(*generator).CallMethod") {
+			if hf := p.SSAFunc(rf); hf != nil {
+				rcalls = append(rcalls, callsIn(hf, false, isObj(modPath+"/generator", "generator", "requireContext"))...)
+			}
+		}
+		_ = sf
+		for _, c := range rcalls {
 			n++
 			v := c.Value()
 			okUse := false
